@@ -3,7 +3,7 @@ import HailVerif.Model.FifoSem
 namespace HailVerif.FifoSem
 
 /-- safety invariant -/
-def Safe (cap : Nat) (s : State) : Prop := s.value + weights s.holders = cap ∧ 0 ≤ s.value
+def Safe (cap : Nat) (s : State) : Prop := s.value + held s = cap ∧ 0 ≤ s.value
 
 /-- the head of the queue does not fit -/
 def HeadBlocked (s : State) : Prop := ∀ i w q, s.queue = (i, w) :: q → s.value < (w : Int)
@@ -54,68 +54,68 @@ theorem take_ids : ∀ (l : List (Nat × Nat)) (i w : Nat) (r : List (Nat × Nat
         have := ih i w' r' heq
         simp [ids] at *; right; exact this
 
-theorem drain_safe : ∀ (q : List (Nat × Nat)) (v : Int) (h : List (Nat × Nat)), 0 ≤ v →
-    (drain v h q).1.value + weights (drain v h q).1.holders = v + weights h ∧ 0 ≤ (drain v h q).1.value := by
+theorem drain_safe : ∀ (q : List (Nat × Nat)) (v : Int) (g h : List (Nat × Nat)), 0 ≤ v →
+    (drain v g h q).1.value + weights (drain v g h q).1.granted = v + weights g ∧ 0 ≤ (drain v g h q).1.value ∧
+    (drain v g h q).1.holders = h := by
   intro q
   induction q with
-  | nil => intro v h hv; simp [drain, hv]
+  | nil => intro v g h hv; simp [drain, hv]
   | cons p q ih =>
-    intro v h hv
+    intro v g h hv
     obtain ⟨i, w⟩ := p
     simp only [drain]
     split
     · next hfit =>
-      have := ih (v - w) (h ++ [(i, w)]) (by omega)
+      have := ih (v - w) (g ++ [(i, w)]) h (by omega)
       simp only [weights_append, weights_cons, weights_nil] at this
-      constructor
-      · simp only []; omega
-      · exact this.2
+      refine ⟨?_, this.2.1, this.2.2⟩
+      simp only []; omega
     · simp [hv]
 
-theorem drain_head : ∀ (q : List (Nat × Nat)) (v : Int) (h : List (Nat × Nat)), HeadBlocked (drain v h q).1 := by
+theorem drain_head : ∀ (q : List (Nat × Nat)) (v : Int) (g h : List (Nat × Nat)), HeadBlocked (drain v g h q).1 := by
   intro q
   induction q with
-  | nil => intro v h i w q' hq; simp [drain] at hq
+  | nil => intro v g h i w q' hq; simp [drain] at hq
   | cons p q ih =>
-    intro v h
+    intro v g h
     obtain ⟨i, w⟩ := p
     simp only [drain]
     split
-    · exact ih _ _
+    · exact ih _ _ _
     · next hfit =>
       intro i' w' q' hq
       simp at hq
       obtain ⟨⟨rfl, rfl⟩, _⟩ := hq
       simp; omega
 
-theorem drain_trace : ∀ (q : List (Nat × Nat)) (v : Int) (h : List (Nat × Nat)),
-    grantedFromQueue (drain v h q).2 ++ ids (drain v h q).1.queue = ids q ∧ enqueued (drain v h q).2 = [] := by
+theorem drain_trace : ∀ (q : List (Nat × Nat)) (v : Int) (g h : List (Nat × Nat)),
+    grantedFromQueue (drain v g h q).2 ++ ids (drain v g h q).1.queue = ids q ∧ enqueued (drain v g h q).2 = [] := by
   intro q
   induction q with
-  | nil => intro v h; simp [drain, grantedFromQueue, enqueued, ids]
+  | nil => intro v g h; simp [drain, grantedFromQueue, enqueued, ids]
   | cons p q ih =>
-    intro v h
+    intro v g h
     obtain ⟨i, w⟩ := p
     simp only [drain]
     split
-    · have := ih (v - w) (h ++ [(i, w)])
+    · have := ih (v - w) (g ++ [(i, w)]) h
       simp only [grantedFromQueue, enqueued]
       constructor
       · simp [ids] at *; exact this.1
       · exact this.2
     · simp [grantedFromQueue, enqueued, ids]
 
-theorem drain_queue_sub : ∀ (q : List (Nat × Nat)) (v : Int) (h : List (Nat × Nat)),
-    ∀ p ∈ (drain v h q).1.queue, p ∈ q := by
+theorem drain_queue_sub : ∀ (q : List (Nat × Nat)) (v : Int) (g h : List (Nat × Nat)),
+    ∀ p ∈ (drain v g h q).1.queue, p ∈ q := by
   intro q
   induction q with
-  | nil => intro v h p hp; simp [drain] at hp
+  | nil => intro v g h p hp; simp [drain] at hp
   | cons p0 q ih =>
-    intro v h p hp
+    intro v g h p hp
     obtain ⟨i, w⟩ := p0
     simp only [drain] at hp
     split at hp
-    · exact List.mem_cons_of_mem _ (ih _ _ p hp)
+    · exact List.mem_cons_of_mem _ (ih _ _ _ p hp)
     · exact hp
 
 /-- all four invariants are preserved by one step; the trace of the step extends the FIFO bookkeeping -/
@@ -134,7 +134,7 @@ theorem step_inv (cap : Nat) (s s' : State) (op : Op) (e : List Ev)
         simp at h; obtain ⟨rfl, rfl⟩ := h
         obtain ⟨hq0, hv⟩ := hfit
         refine ⟨?_, ?_, hq, ?_⟩
-        · unfold Safe at *; simp only [weights_append, weights_cons, weights_nil] at *; omega
+        · unfold Safe held at *; simp only [weights_append, weights_cons, weights_nil] at *; omega
         · intro i' w' q' hq'
           simp at hq'
           cases hs' : s.queue with
@@ -170,14 +170,24 @@ theorem step_inv (cap : Nat) (s s' : State) (op : Op) (e : List Ev)
       simp at h
       have hwt := take_weights _ _ _ _ htake
       obtain ⟨hsum, hnn⟩ := hs
-      have hd := drain_safe s.queue (s.value + w) rest (by omega)
-      have ht := drain_trace s.queue (s.value + w) rest
-      have hhd := drain_head s.queue (s.value + w) rest
-      have hqs := drain_queue_sub s.queue (s.value + w) rest
+      have hd := drain_safe s.queue (s.value + w) s.granted rest (by omega)
+      have ht := drain_trace s.queue (s.value + w) s.granted rest
+      have hhd := drain_head s.queue (s.value + w) s.granted rest
+      have hqs := drain_queue_sub s.queue (s.value + w) s.granted rest
       rw [h] at hd hhd ht hqs
       simp only at hd hhd ht hqs
-      refine ⟨⟨by omega, hd.2⟩, hhd, fun p hp => hq p (hqs p hp), ?_⟩
-      rw [ht.2]; simpa using ht.1
+      refine ⟨⟨?_, hd.2.1⟩, hhd, fun p hp => hq p (hqs p hp), ?_⟩
+      · unfold held at *; rw [hd.2.2]; omega
+      · rw [ht.2]; simpa using ht.1
+  | resume i =>
+    simp only [step] at h
+    split at h
+    · simp at h
+    · next w rest htake =>
+      simp at h; obtain ⟨rfl, rfl⟩ := h
+      have hwt := take_weights _ _ _ _ htake
+      refine ⟨?_, hh, hq, by simp [grantedFromQueue, enqueued]⟩
+      unfold Safe held at *; simp only [weights_append, weights_cons, weights_nil] at *; omega
 
 theorem run_inv (cap : Nat) : ∀ (ops : List Op) (s s' : State) (es : List Ev),
     WeightsLe cap ops → Safe cap s → HeadBlocked s → QueueLe cap s → run s ops = some (s', es) →
@@ -215,7 +225,7 @@ theorem run_inv (cap : Nat) : ∀ (ops : List Op) (s s' : State) (es : List Ev),
         rw [ga, ea, List.append_assoc, ht2, ← List.append_assoc, ht1, List.append_assoc]
 
 theorem init_inv (cap : Nat) : Safe cap (init cap) ∧ HeadBlocked (init cap) ∧ QueueLe cap (init cap) := by
-  refine ⟨by simp [Safe, init, weights], ?_, ?_⟩
+  refine ⟨by simp [Safe, held, init, weights], ?_, ?_⟩
   · intro i w q h; simp [init] at h
   · intro p hp; simp [init] at hp
 
